@@ -383,7 +383,7 @@ impl Check for C02 {
         let mut u = vec![];
         for (i, p) in permutations(4).into_iter().enumerate() {
             let bound = match tier {
-                Tier::Quick => if i % 8 == 0 { 2 } else { 1 },
+                Tier::Quick => 2,
                 Tier::Thorough => 2,
             };
             u.push(json!({"kind":"perm","order":p,"bound":bound,"fate_budget":tier.pick(40, 60)}));
